@@ -109,7 +109,7 @@ func init() {
 			Level: "exploration",
 			Rule: "family 0: every entry set of size ≤ setMax over {exact, d/, d/*} × paths(depth) ∪ {Add(/), /*}, every query path incl. / and \"\"; " +
 				"family 1: every 4-tuple (Writable,Readable,Statable,SoftBan) of sets of size ≤ 1 at depth 2, Handler.CheckRead/Write/Stat on every query; " +
-				"family 2: real symlink forest, raw-or-real clause; family 3: counter tables of ≤ 2 names × counts {-1..3}, all call sequences ≤ seqLen; family 4: sets produced by the grant constructors (AddFilePermission of every path × permission, singly and in pairs; the shipped GetConf loader for every program type, also with command-line additions whose names cannot be resolved: they must grant nothing) — the admitted set is exactly the granted path in its class plus its proper ancestor directories as exact stat entries, on every query incl. \"\" and unresolvable names. " +
+				"family 2: real symlink forest, raw-or-real clause; family 3: counter tables of ≤ 2 names × counts {-1..3}, all call sequences ≤ seqLen; family 4: sets produced by the grant constructors (AddFilePermission of every path × permission, singly and in pairs; the shipped GetConf loader for every program type, also with command-line additions whose names cannot be resolved: they must grant nothing) — the admitted set is exactly the granted path in its class plus its proper ancestor directories as exact stat entries, on every query incl. \"\" and unresolvable names; family 5: one long-lived policy object asked three times about a link that is re-pointed (covered / uncovered / dangling target, all 27 sequences) between the questions × entry class × class asked: each answer follows from the current target. " +
 				"non-trivial: the entry set is non-empty and the query is not literally one of the entries; distinct = hash of (family, set, query, answer)",
 			Bound: map[string]any{"depth": depth, "set_size": setMax, "cascade_depth": cascadeDepth, "counter_seq_len": seqLen,
 				"excluded": []string{"query / against entry /* (is the root a child of itself?)", "hand-inserted map key \"/\" (not constructible through Add/AddRange)"}},
@@ -144,7 +144,9 @@ func init() {
 			}
 		}
 		spec.Body = func(x *mc.X) {
-			switch x.Choose(5, "family") {
+			switch x.Choose(6, "family") {
+			case 5:
+				c18history(x)
 			case 4:
 				c18constructors(x, cpaths, queries)
 			case 0:
@@ -336,6 +338,64 @@ func c18symlink(x *mc.X, root string) {
 		}
 	}
 	x.Outcome(fmt.Sprintf("symlink:admitted=%d", adm))
+}
+
+// family 5: one long-lived policy object and a file system that changes between its answers. A name that is covered only
+// through what it resolves to (a link) is asked about three times in a row, each time after the link was pointed at a
+// covered file, an uncovered file or nothing (all 27 sequences) × entry class × the class asked at each step. Every answer
+// must follow from what the name resolves to NOW: an answer remembered from an earlier question admits an uncovered path.
+func c18history(x *mc.X) {
+	targets := []string{"cov/f", "unc/f", "missing"}
+	cls := x.Choose(3, "entry-class")
+	var seq, ask [3]int
+	for i := range seq {
+		seq[i] = x.Choose(len(targets), "link-target")
+		ask[i] = x.Choose(3, "class-asked")
+	}
+	x.Note("family", "history")
+	x.Note("case", fmt.Sprintf("entry cov/ in class %d; link r -> %s, %s, %s; classes asked %v", cls, targets[seq[0]], targets[seq[1]], targets[seq[2]], ask))
+	if x.Dry() {
+		return
+	}
+	d := tmpDir("c18h")
+	defer os.RemoveAll(d)
+	d, _ = filepath.EvalSymlinks(d)
+	os.MkdirAll(filepath.Join(d, "cov"), 0755)
+	os.MkdirAll(filepath.Join(d, "unc"), 0755)
+	os.WriteFile(filepath.Join(d, "cov", "f"), nil, 0644)
+	os.WriteFile(filepath.Join(d, "unc", "f"), nil, 0644)
+	sets := filehandler.NewFileSets()
+	dst := []*filehandler.FileSet{&sets.Writable, &sets.Readable, &sets.Statable}
+	e := c18entry{1, filepath.Join(d, "cov")} // directory entry: cov and everything beneath it
+	c18add(dst[cls], e)
+	h := &filehandler.Handler{FileSet: sets, SyscallCounter: filehandler.NewSyscallCounter()}
+	link := filepath.Join(d, "r")
+	for i := range seq {
+		os.Remove(link)
+		os.Symlink(filepath.Join(d, targets[seq[i]]), link)
+		covered := seq[i] == 0
+		admit := covered && cls <= ask[i]
+		var got ptracer.TraceAction
+		switch ask[i] {
+		case 0:
+			got = h.CheckWrite(link)
+		case 1:
+			got = h.CheckRead(link)
+		case 2:
+			got = h.CheckStat(link)
+		}
+		x.Count(1)
+		exp := ptracer.TraceKill
+		if admit {
+			exp = ptracer.TraceAllow
+		}
+		x.Distinct(fmt.Sprint("h", cls, seq, ask, i, got))
+		if got != exp {
+			x.Failf(fmt.Sprintf("C18/history/answer-does-not-follow-the-current-target/exp%d-got%d", exp, got),
+				"entry cov/ (class %d), link pointed at %v in turn: question %d (class %d, link now -> %s) answered %d, expected %d", cls, []string{targets[seq[0]], targets[seq[1]], targets[seq[2]]}, i+1, ask[i], targets[seq[i]], got, exp)
+		}
+	}
+	x.Outcome(fmt.Sprintf("history:%v", seq))
 }
 
 func c18counter(x *mc.X, seqLen int) {
